@@ -167,6 +167,8 @@ def _sweep_cases(ctx):
     for _ in range(30 if ctx.tier == 'quick' else 200):
         c = _case(rng, n_case_args=(1, 3), n_combo_args=(1, 2))
         c['overlap'] = True; c['via'] = 'combo_runner'; c['flat'] = False; c['spelling'] = 'dict'
+        # ... through every entry point that takes cases and combos together (the labelled ones skip the parse stage of the core)
+        c['via'] = rng.choice(['combo_runner', 'case_runner', 'runner_combos', 'runner_cases', 'to_ds', 'case_to_ds', 'to_df'])
         out.append(c)
     if ctx.tier == 'thorough':
         # all non-empty case subsets of a 3x3 and a 2x2x2 coordinate box
@@ -228,7 +230,21 @@ def run_real(c, ctx):
         combos = dict(combos or {}); combos[a] = list(sw['values'][a])
     fns.reset_log()
     try:
-        if c['via'] == 'combo_runner':
+        if c.get('overlap') and c['via'] in ('runner_combos', 'runner_cases', 'to_ds', 'case_to_ds', 'to_df'):
+            # the request must be refused before anything runs, so the output description does not matter
+            ct = sweeps.py_cases(sw, 'tuple')
+            if c['via'] == 'runner_combos':
+                res = xyz.Runner(f, var_names=['x']).run_combos(combos, cases=cases_, constants=sw['consts'] or None, verbosity=0)
+            elif c['via'] == 'runner_cases':
+                res = xyz.Runner(f, var_names=['x'], fn_args=sw['case_args']).run_cases(ct, combos=combos, constants=sw['consts'] or None, verbosity=0)
+            elif c['via'] == 'to_ds':
+                res = xyz.combo_runner_to_ds(f, combos, var_names=['x'], cases=cases_, constants=sw['consts'] or None, verbosity=0)
+            elif c['via'] == 'to_df':
+                res = xyz.combo_runner_to_df(f, combos, var_names=['x'], cases=cases_, constants=sw['consts'] or None, verbosity=0)
+            else:
+                res = xyz.case_runner_to_ds(f, sw['case_args'], ct, var_names=['x'], combos=combos, constants=sw['consts'] or None, verbosity=0)
+            res = None
+        elif c['via'] == 'combo_runner':
             res = xyz.combo_runner(f, combos, cases=cases_, constants=sw['consts'] or None,
                                    split=c['split'], flat=c['flat'], verbosity=0, **kw)
         else:
@@ -236,7 +252,7 @@ def run_real(c, ctx):
                                   split=c['split'], verbosity=0, **kw)
     except Exception as e:
         return {'err': type(e).__name__, 'msg': str(e)[:200], 'log': sweeps.canon_log(fns.read_log(), sw)}
-    return {'out': sweeps.canon_result(res), 'log': sweeps.canon_log(fns.read_log(), sw),
+    return {'out': sweeps.canon_result(res) if res is not None else None, 'log': sweeps.canon_log(fns.read_log(), sw),
             'perm_seed': seed, 'adv_order': list(adv.order) if adv else None}
 
 
